@@ -20,8 +20,10 @@ RULE = ("Cases = (shape in create/create, edit/edit) x (contents pair incl. equa
         "canonical schedule.  Oracle = the statement's outcome table (resolver called once iff contents differ, with "
         "handles whose bytes/side labels are the two sides' contents; winner at the path on both sides; loser in a "
         "'.conflicted' sibling iff keep; merged bytes on both sides; None/raise/garbage => remote wins, local kept) and "
-        "schedule independence (identical final trees under both schedules).  Non-trivial = contents differ (the "
-        "resolver must be called); distinct = distinct case.")
+        "schedule independence (identical final trees under both schedules).  Part `rounds`: 2-4 conflicts in a row on the "
+        "same file (fresh bytes on both sides each round, resolver drawn per round, drawn schedule, judged after each "
+        "round with the same table; a side re-writing the synced bytes is not a conflict).  Non-trivial = contents differ "
+        "(the resolver must be called; rounds: in at least two rounds); distinct = distinct case.")
 ASSUMPTIONS = [
     "mock providers; the resolver is installed by overriding CloudSync.resolve_conflict (documented override point)",
     "resolver answer (merged data, keep=True) is an open finding (KF-06) and not generated",
@@ -35,8 +37,12 @@ CONTENTS = ("x1", "y2", "", "big#4096", "x1")       # pairs drawn from here; equ
 
 
 def make_cs(kind, log):
+    """`kind` is a resolver name, or a one-element list holding the current one (part `rounds` swaps it between rounds)"""
+    holder = kind if isinstance(kind, list) else [kind]
+
     class ResolverCS(CloudSync):
         def resolve_conflict(self, f1, f2):
+            kind = holder[0]
             rec = []
             for f in (f1, f2):
                 data = f.read()
@@ -80,7 +86,9 @@ def make_cs(kind, log):
 
 
 def budget(tier):
-    return {"workers": 16, "examples": 120 if tier == "quick" else 4000}
+    q = tier == "quick"
+    return [{"workers": 16, "examples": 120 if q else 4000},
+            {"part": "rounds", "workers": 16, "examples": 80 if q else 3000}]
 
 
 def _sched(d):
@@ -127,10 +135,22 @@ def one_run(trace, sched):
     return out, log, final
 
 
-def judge(trace, log, final):
+def judge(trace, log, final, before_conf=(), prev=None):
+    """before_conf: (side, path) of '.conflicted' files that existed before this round (part `rounds`);
+    prev: bytes both sides held at /f before the round -- a side that re-writes exactly those bytes has no
+    unsynchronised content, so there is no conflict and the other side's edit (if any) is simply mirrored."""
     cL, cR = blob(trace["contents"][0]), blob(trace["contents"][1])
     kind = trace["resolver"]
     L, R = final["L"], final["R"]
+    L = {p: v for p, v in L.items() if (0, p) not in before_conf}
+    R = {p: v for p, v in R.items() if (1, p) not in before_conf}
+    if prev is not None and (cL == prev or cR == prev):
+        want = cR if cL == prev else cL
+        if log:
+            return "only one side holds unsynchronised content, yet the resolver was called %d time(s)" % len(log)
+        if L.get("/f") != want or R.get("/f") != want or [p for t in (L, R) for p in t if ".conflicted" in p]:
+            return "one-sided edit: expected /f=%r on both sides and no new '.conflicted'; L=%s R=%s" % (want[:12], O.fmt_tree(L), O.fmt_tree(R))
+        return None
 
     def conflicted(content):
         return [(n, p) for n, t in (("L", L), ("R", R)) for p, v in t.items()
@@ -186,6 +206,83 @@ def run(trace):
     cfg = trace["cfg"]
     return ok(nontrivial=differ, labels=["resolver:" + trace["resolver"], "shape:" + trace["shape"],
                                          "flavour:%s/%s" % (cfg["L"], cfg["R"]), "differ" if differ else "equal"])
+
+
+# ----------------------------------------------------------------------------- part: rounds
+# Several conflicts in a row on the SAME file: every round both sides write fresh bytes to /f before the engine
+# sees either, a resolver (drawn per round) answers, the engine goes quiet, and the round is judged with the same
+# outcome table.  What a previous round left behind (temp files, sync hashes, '.conflicted' siblings) must not leak
+# into the next one: the handles must carry THIS round's bytes.
+def gen_rounds(d, tier):
+    L, R = d.choice(FLAVOURS)
+    rounds = []
+    for i in range(d.int(2, 3 if tier == "quick" else 4)):
+        a = d.choice(("x%d" % i, "", "big%d#4096" % i, "x%d" % i))
+        b = d.choice(("y%d" % i, "", "big%d#4096" % i, "y%d" % i)) if d.chance(5, 6) else a
+        rounds.append({"contents": [a, b], "resolver": d.choice(RESOLVERS), "order": d.int(0, 1), "sched": _sched(d)})
+    return {"cfg": {"L": L, "R": R, "salt": d.int(0, 7)}, "shape": d.choice(SHAPES), "rounds": rounds, "bg": d.int(0, 1)}
+
+
+class RoundsRun(HistoryRun):
+    def __init__(self, trace):
+        self.holder = [trace["rounds"][0]["resolver"]]
+        self.conflicts = 0
+        self.log = []
+        self.marks = []
+        acts = []
+        if trace["shape"] == "edit_edit":
+            acts += [["u", 0, "create", "/f", "base0"], ["settle"]]
+        for i, rd in enumerate(trace["rounds"]):
+            op = "create" if (i == 0 and trace["shape"] == "create_create") else "write"
+            acts.append(["round", i])
+            for s in ((0, 1) if rd["order"] == 0 else (1, 0)):
+                acts.append(["u", s, op, "/f", rd["contents"][s]])
+            if i == 0:
+                for j in range(trace.get("bg", 0)):
+                    acts.append(["u", j % 2, "create", "/bg%d" % j, "bg%d" % j])
+            acts += [["step", w] for w in rd["sched"]]
+            acts += [["settle"], ["judge", i]]
+        self.rtrace = trace
+        super().__init__({"cfg": trace["cfg"], "acts": acts}, case_kw={"cs_class": make_cs(self.holder, self.log)})
+
+    def special(self, act):
+        tr = self.rtrace
+        if act[0] == "round":
+            self.holder[0] = tr["rounds"][act[1]]["resolver"]
+            self.log_at = len(self.log)
+            self.conf_before = {(s, p) for s in (0, 1) for p in self.case.snap(s) if ".conflicted" in p}
+            f0, f1 = self.case.snap(0).get("/f"), self.case.snap(1).get("/f")
+            self.prev = f0 if f0 == f1 else None
+            return
+        if act[0] == "judge":
+            rd = tr["rounds"][act[1]]
+            e = O.escaped(self.case)
+            if e:
+                raise Stop(violation("exception_escaped", e))
+            fin = {"L": self.case.snap(0), "R": self.case.snap(1)}
+            err = judge({"contents": rd["contents"], "resolver": rd["resolver"]}, self.log[self.log_at:], fin, self.conf_before, self.prev)
+            if err:
+                raise Stop(violation("resolver_contract", "[round %d] %s" % (act[1] + 1, err)))
+            self.conflicts += len(self.log) > self.log_at
+            return
+        raise InvalidTrace("unknown action %r" % (act,))
+
+
+def run_rounds(trace):
+    for rd in trace["rounds"]:
+        if rd["resolver"] not in RESOLVERS + KF_RESOLVERS:
+            return invalid("unknown resolver")
+    r = RoundsRun(trace)
+    out = r.execute()
+    if out["status"] != "ok":
+        return out
+    ndiff = r.conflicts
+    cfg = trace["cfg"]
+    return ok(nontrivial=ndiff >= 2, labels=["rounds:%d" % len(trace["rounds"]), "flavour:%s/%s" % (cfg["L"], cfg["R"])] +
+              sorted({"resolver:" + rd["resolver"] for rd in trace["rounds"]}))
+
+
+PARTS = {"rounds": (gen_rounds, run_rounds)}
 
 
 def extra_parts(tier, seed):
